@@ -116,6 +116,12 @@ def judge(ctx, case, res):
         st_, a, b = ref_run(ctx, d, path, target, std)
         if st_ == "discard":
             res.discard.append(a)
+            if os.environ.get("VERIF_DUMP_DISCARDS"):
+                # development aid: why did a reference compiler refuse or flag a generated program?
+                dd = os.environ["VERIF_DUMP_DISCARDS"]
+                os.makedirs(dd, exist_ok=True)
+                with open(os.path.join(dd, "%s-%s.c" % (a.replace(":", "-"), sha(src))), "w") as f:
+                    f.write("/* %s\n%s\n*/\n%s" % (a, b, case["src"]))
             if expect is not None and a.startswith(("ref-ub", "ref-split")):
                 res.labels.append("model-accepted-but-" + a.split(":")[0])
             return
